@@ -78,7 +78,7 @@ pub fn build_runtime(k: i32) -> Runtime<NoCtx> {
 /// initialisers leave droppable temporaries behind, a zero-sized constant.
 pub fn script_files(v: i32) -> Vec<(String, String)> {
     let root = format!(
-        "record Conf {{\n    t: Tr,\n    n: i32,\n}}\nconst K: Tr = mk({k});\nconst Z: Tz = mkz();\nconst C: Conf = Conf {{ t: mk({c}), n: 5 }};\nconst SAME: bool = REG == REG;\nconst N: i32 = C.n + K.tag() - K.tag();\nfn f(x: i32) -> i32 {{\n    x * {v} + K.tag() + REG.tag() + host() + host_a() - host_b() + C.n - N + (if SAME {{ 0 }} else {{ 1000 }}) + C.t.tag() - {c} + m1.g() - {m} + hz(Z) + (if banner().ends_with(\"version {v}\") {{ 0 }} else {{ 100000 }}) + smalls() + trs()\n}}\nconst S1: i32 = {s1};\nconst S2: u8 = 2;\nconst S3: i64 = 3;\nconst S4: u16 = 4;\nconst S5: bool = true;\nconst S6: u32 = 6;\nconst S7: i8 = 7;\nconst S8: char = 'x';\nconst S9: f32 = 9.5;\nconst S10: f64 = 10.5;\nconst S11: u64 = 11;\nconst S12: i16 = 12;\nfn base() -> i32 {{\n    S1\n}}\nconst LATE: i32 = base() + 1;\nconst S13: i32 = 13;\nconst S14: i32 = 14;\nconst S15: i32 = 15;\nconst S16: i32 = 16;\nconst S17: i32 = LATE + 1;\nfn smalls() -> i32 {{\n    (if S2 == 2 && S3 == 3 && S4 == 4 && S5 && S6 == 6 && S7 == 7 && S8 == 'x' && S9 == 9.5 && S10 == 10.5 && S11 == 11 && S12 == 12 && S13 == 13 && S14 == 14 && S15 == 15 && S16 == 16 {{ 0 }} else {{ 10000 }}) + base() - {s1} + LATE - {s1} - 1 + S17 - {s1} - 2\n}}\nfn trs() -> i32 {{\n    let l = [mk(9), mk(8)];\n    l.push(mk(7));\n    let e: List[Tr] = [];\n    e.push(mk(6));\n    (match l.get(2) {{ Some(t) => t.tag() - 7, None => 500 }}) + (match e.get(0) {{ Some(t) => t.tag() - 6, None => 700 }})\n}}\nfn banner() -> String {{\n    \"a string literal of more than one hundred and twenty-eight bytes, so that whatever the code generator does with large read-only data applies to it; it names its version {v}\"\n}}\nfn other(x: i32) -> i32 {{\n    K.tag() - x\n}}\n",
+        "record Conf {{\n    t: Tr,\n    n: i32,\n}}\nconst K: Tr = mk({k});\nconst Z: Tz = mkz();\nconst C: Conf = Conf {{ t: mk({c}), n: 5 }};\nconst SAME: bool = REG == REG;\nconst N: i32 = C.n + K.tag() - K.tag();\nfn f(x: i32) -> i32 {{\n    x * {v} + K.tag() + REG.tag() + host() + host_a() - host_b() + C.n - N + (if SAME {{ 0 }} else {{ 1000 }}) + C.t.tag() - {c} + m1.g() - {m} + hz(Z) + (if banner().ends_with(\"version {v}\") {{ 0 }} else {{ 100000 }}) + smalls() + trs() + plain(x)\n}}\nrecord Plain {{\n    a: i32,\n    b: i64,\n}}\nconst PL: Plain = Plain {{ a: 5, b: 6 }};\nconst IP: IpAddr = 10.0.0.1;\nconst PF: Prefix = 10.0.0.0 / 8;\nfn plain(x: i32) -> i32 {{\n    let p = PL;\n    p.a = p.a + x + 1;\n    p.b = 0;\n    let q = IP;\n    q = 10.0.0.2;\n    let r = PF;\n    r = 192.168.0.0 / 16;\n    (if PL.a == 5 && PL.b == 6 && IP == 10.0.0.1 && PF == 10.0.0.0 / 8 {{ 0 }} else {{ 1000000 }}) + p.a - x - 6 + (if q == 10.0.0.2 && r == 192.168.0.0 / 16 {{ 0 }} else {{ 7 }})\n}}\nconst S1: i32 = {s1};\nconst S2: u8 = 2;\nconst S3: i64 = 3;\nconst S4: u16 = 4;\nconst S5: bool = true;\nconst S6: u32 = 6;\nconst S7: i8 = 7;\nconst S8: char = 'x';\nconst S9: f32 = 9.5;\nconst S10: f64 = 10.5;\nconst S11: u64 = 11;\nconst S12: i16 = 12;\nfn base() -> i32 {{\n    S1\n}}\nconst LATE: i32 = base() + 1;\nconst S13: i32 = 13;\nconst S14: i32 = 14;\nconst S15: i32 = 15;\nconst S16: i32 = 16;\nconst S17: i32 = LATE + 1;\nfn smalls() -> i32 {{\n    (if S2 == 2 && S3 == 3 && S4 == 4 && S5 && S6 == 6 && S7 == 7 && S8 == 'x' && S9 == 9.5 && S10 == 10.5 && S11 == 11 && S12 == 12 && S13 == 13 && S14 == 14 && S15 == 15 && S16 == 16 {{ 0 }} else {{ 10000 }}) + base() - {s1} + LATE - {s1} - 1 + S17 - {s1} - 2\n}}\nfn trs() -> i32 {{\n    let l = [mk(9), mk(8)];\n    l.push(mk(7));\n    let e: List[Tr] = [];\n    e.push(mk(6));\n    (match l.get(2) {{ Some(t) => t.tag() - 7, None => 500 }}) + (match e.get(0) {{ Some(t) => t.tag() - 6, None => 700 }})\n}}\nfn banner() -> String {{\n    \"a string literal of more than one hundred and twenty-eight bytes, so that whatever the code generator does with large read-only data applies to it; it names its version {v}\"\n}}\nfn other(x: i32) -> i32 {{\n    K.tag() - x\n}}\n",
         k = 300 + v,
         c = 700 + v,
         m = 800 + v,
